@@ -1585,6 +1585,11 @@ impl TInputProtocol for TCompactInputProtocol<&mut Bytes> {
 
     // #[inline]
     fn read_field_begin(&mut self) -> Result<TFieldIdentifier, ThriftException> {
+        // a new field begins: a bool field announced to `field_begin_len` for the
+        // previous field is no longer pending, whether or not its value was read
+        // as a bool (a union variant is read with its declared reader whatever
+        // the wire type says)
+        self.pending_read_bool_field_identifier = None;
         // we can read at least one byte, which is:
         // - the type
         // - the field id delta and the type
